@@ -6,11 +6,12 @@ seed=$1; shift
 cd /repo || exit 2
 if ! git diff --quiet; then echo "repo has uncommitted changes"; exit 2; fi
 # contract files are maintained by the verifier, not by the seeded change
-git apply --exclude='*contracts_verif.go' "$seed/patch.diff" || { echo "patch does not apply"; git checkout -- .; exit 3; }
+git apply --exclude='*contracts_verif.go' "$seed/patch.diff" 2>/dev/null || git apply --3way --exclude='*contracts_verif.go' "$seed/patch.diff" >/dev/null 2>&1 || { echo "PATCH DOES NOT APPLY"; git reset -q --hard HEAD; exit 3; }
+git reset -q
 rc=0
 for p in "$@"; do
   out=$(cd /verif && bin/govc check "$p" 2>&1)
   echo "$out" | grep -E 'VIOLATION|KNOWN-FINDING|BROKEN|govc check|obligation ' | head -20
 done
-git checkout -- . ; git clean -fdq -- . 2>/dev/null
+git reset -q --hard HEAD; git clean -fdq -- . 2>/dev/null
 exit $rc
